@@ -317,6 +317,7 @@ def gen_cases(rng, tier, ctx):
     cases.extend(gen_forest3(rng, quick))
     cases.extend(gen_round4(rng, quick))
     cases.extend(gen_round5(rng, quick))
+    cases.extend(gen_round6(rng, quick))
     # round 5: twins.  The check drops a model-vs-implementation disagreement of a case whose specification fails under a known
     # finding, so a change of behaviour INSIDE a known-finding class was invisible.  Every forest case that can reach one (the
     # caller hands held nodes back, or holds a copy with an explicit parent) is generated a second time; when the run falls
@@ -352,6 +353,67 @@ def gen_round5(rng, quick):
                             [Q()] + [H(par + [k]) for k in range(n)] +
                             [{'f': 'ins', 'ks': [i], 'b': None, 'dst': par, 'how': how}, Q(), AT(j, ed), Q(),
                              AT(j, {'op': 'qdur', 'sel': []}), M({'op': 'append', 'sel': par + [j], 't': lf('3'), 'kw': True}), Q()])})
+    return cases
+
+
+# round 6 (seed C09-10's class: the replaced child is already owned by the new value).  A held child (leaf, inner node,
+# child of an inner node, child of a detached held tree) is wrapped into a new loop - 1 or 2 levels, count 3 or 1 - which is
+# assigned to the child's own position by int / negative int / one-element slice / one-element extended slice; two
+# neighbours wrapped together by a two-element slice (what encapsulate does one level up).  Durations are read before, the
+# wrapped node is edited through the program afterwards (waveform / count / append / slice assignment), durations read
+# again, then the wrapper is unrolled / split / replaced so that the wrapped node's recorded position is used.
+def gen_round6(rng, quick):
+    cases = []
+    lf = lambda d, r=1, v=1: L(['c', d, v], r)
+    M = lambda o: {'f': 'main', 'op': o}
+    Q = lambda sel=(): M({'op': 'qdur', 'sel': list(sel)})
+    AT = lambda k, o: {'f': 'at', 'k': k, 'op': o}
+    H = lambda sel: {'f': 'hold', 'sel': list(sel)}
+    T3 = N([N([lf('1'), lf('2', 2)], 2), lf('4', 3), N([lf('8')], 1)], 2)
+
+    def edits(sel):
+        return [{'op': 'setwf', 'sel': sel, 'w': ['c', '5', 1]}, {'op': 'setrep', 'sel': sel, 'z': 4},
+                {'op': 'append', 'sel': sel, 't': lf('7'), 'kw': False},
+                {'op': 'setslice', 'sel': sel, 'start': None, 'stop': None, 'step': None, 'ts': [lf('7'), lf('3')]}]
+
+    def after(wsel):
+        return [{'op': 'unroll', 'sel': wsel}, {'op': 'split', 'sel': wsel, 'ci': None}, {'op': 'unrollc', 'sel': wsel},
+                {'op': 'setint', 'sel': wsel, 'idx': 0, 't': lf('6', 2)}]
+    n_case = 0
+    for par, n in (([], 3), ([0], 2), ([2], 1)):
+        for i in range(n):
+            for hi, how in enumerate((['int', i], ['int', i - n], ['slice', i, i + 1, None], ['slice', i, None, n])):
+                for depth in (1, 2):
+                    for r in (3, 1):
+                        wsel = par + [i]
+                        csel = wsel + [0] * depth
+                        eds, afs = edits(csel), after(wsel)
+                        for e in range(len(eds)):
+                            n_case += 1
+                            if quick and (n_case % 4) and not (hi == 0 and e == 0):
+                                continue
+                            cases.append({'kind': 'forest', 'src': 'wrap', 'init': T3, 'ops': (
+                                [Q(), H(wsel), {'f': 'wrap', 'ks': [0], 'depth': depth, 'r': r, 'b': None, 'dst': par, 'how': how},
+                                 Q(), M(eds[e]), Q(), M(afs[(e + hi + depth) % len(afs)]), Q()])})
+    # two neighbours wrapped together (slice of two positions); the second one edited afterwards
+    for i in (0, 1):
+        for depth in (1, 2):
+            for e, ed in enumerate(edits([i] + [0] * (depth - 1) + [1])):
+                cases.append({'kind': 'forest', 'src': 'wrap2', 'init': T3, 'ops': (
+                    [Q(), H([i]), H([i + 1]),
+                     {'f': 'wrap', 'ks': [0, 1], 'depth': depth, 'r': 2, 'b': None, 'dst': [], 'how': ['slice', i, i + 2, None]},
+                     Q(), M(ed), Q(), M({'op': 'unroll', 'sel': [i]}), Q()])})
+    # below a held tree that dropped out of the program: its child is wrapped in place, edited through the held tree
+    for how in (['int', 1], ['int', -1], ['slice', 1, 2, None]):
+        for depth in (1, 2):
+            for e, ed in enumerate(edits([1] + [0] * depth)):
+                if quick and (e + depth) % 2:
+                    continue
+                cases.append({'kind': 'forest', 'src': 'wrapheld', 'init': T3, 'ops': (
+                    [Q(), H([0]), H([0, 1]), M({'op': 'setint', 'sel': [], 'idx': 0, 't': lf('6')}),
+                     AT(0, {'op': 'qdur', 'sel': []}),
+                     {'f': 'wrap', 'ks': [1], 'depth': depth, 'r': 3, 'b': 0, 'dst': [], 'how': how},
+                     AT(0, {'op': 'qdur', 'sel': []}), AT(0, ed), AT(0, {'op': 'qdur', 'sel': []}), Q()])})
     return cases
 
 
@@ -1042,9 +1104,9 @@ def run_forest(case):
                 out, eq, flags = 'KDone', None, {}
                 kind = fo['f']
                 base = None
-                if kind in ('holdcopy', 'ins', 'addmeas', 'flatten'):
+                if kind in ('holdcopy', 'ins', 'addmeas', 'flatten', 'wrap'):
                     b = fo.get('b')
-                    if (b is not None and not held) or (kind == 'ins' and not held):
+                    if (b is not None and not held) or (kind in ('ins', 'wrap') and not held):
                         kind = 'skip'
                     else:
                         b = None if b is None else b % len(held)
@@ -1097,6 +1159,32 @@ def run_forest(case):
                             x.append_child(loop=vals[0])
                         else:
                             x[how[1]] = vals[0]
+                    except RecursionError:
+                        out = 'KRecursion'
+                    except (IndexError, TypeError, ValueError, RuntimeError, AttributeError, AssertionError) as e:
+                        out = KINDS[type(e).__name__]
+                elif kind == 'wrap':
+                    # round 6 (seed C09-10's class): a new loop is built AROUND held nodes (Node.__init__ takes them over)
+                    # and then takes their place: one step, observed after the assignment
+                    ks = [k % len(held) for k in fo['ks']]
+                    vals = [held[k] for k in ks]
+                    x, path = resolve(base, fo['dst'])
+                    how = fo['how']
+                    rf = {'f': 'wrap', 'ks': ks, 'depth': fo['depth'], 'r': fo['r'], 'b': b, 'path': path, 'how': how}
+                    if any(id(v) in floating for v in vals) or id(base) in floating:
+                        flags['floating_edit'] = True
+                    w = env.q['Loop'](children=vals, repetition_count=fo['r'] if fo['depth'] <= 1 else 1)
+                    for lvl in range(2, fo['depth'] + 1):
+                        w = env.q['Loop'](children=[w], repetition_count=fo['r'] if lvl == fo['depth'] else 1)
+                    held.append(w)
+                    keep.append(w)
+                    try:
+                        if how[0] == 'slice':
+                            x[slice(how[1], how[2], how[3])] = [w]
+                        elif how[0] == 'app':
+                            x.append_child(loop=w)
+                        else:
+                            x[how[1]] = w
                     except RecursionError:
                         out = 'KRecursion'
                     except (IndexError, TypeError, ValueError, RuntimeError, AttributeError, AssertionError) as e:
@@ -1300,6 +1388,12 @@ def g_fop(f):
         how = 'IAppend' if h[0] == 'app' else '(IInt %s)' % gZ(h[1]) if h[0] == 'int' else \
             '(ISlice %s %s %s)' % (oz(h[1]), oz(h[2]), oz(h[3]))
         return '(FInsert %s %s %s %s)' % (glist(lambda k: '%d%%nat' % k, f['ks']), g_base(f['b']), g_path(f['path']), how)
+    if f['f'] == 'wrap':
+        h = f['how']
+        how = 'IAppend' if h[0] == 'app' else '(IInt %s)' % gZ(h[1]) if h[0] == 'int' else \
+            '(ISlice %s %s %s)' % (oz(h[1]), oz(h[2]), oz(h[3]))
+        return '(FWrapInsert %s %d%%nat %s %s %s %s)' % (glist(lambda k: '%d%%nat' % k, f['ks']), f['depth'], g_rdef(f['r']),
+                                                        g_base(f['b']), g_path(f['path']), how)
     if f['f'] == 'addmeas':
         return '(FAddMeas %s %s %s)' % (g_base(f['b']), g_path(f['path']), glist(g_mw, f['ms']))
     if f['f'] == 'flatten':
@@ -1382,7 +1476,7 @@ def _opname(s):
     if 'op' in s:
         return s['op']['op']
     f = s['f']
-    if f['f'] in ('hold', 'holdcopy', 'ins', 'addmeas', 'flatten'):
+    if f['f'] in ('hold', 'holdcopy', 'ins', 'addmeas', 'flatten', 'wrap'):
         return f['f']
     return ('at:' if f['f'] == 'at' else '') + f['op']['op']
 
